@@ -66,17 +66,22 @@ class Rec:
             await fut
         return f
 
-    def fn(self, target):
+    def fn(self, target, legacy_arity=None):
         def f(*a):
+            if legacy_arity is not None and len(a) != legacy_arity:
+                # a handler written before the `reason` argument existed
+                raise TypeError('handler takes %d positional arguments but '
+                                '%d were given' % (legacy_arity, len(a)))
             self.calls.append((target, list(a)))
             return None
         return f
 
 
-def mk_class(base, rec, target, event, has_method, is_async, co, ns):
+def mk_class(base, rec, target, event, has_method, is_async, co, ns,
+             legacy_arity=None):
     body = {}
     if has_method:
-        h = D.wrap_handler(rec.fn(target), is_async, co)
+        h = D.wrap_handler(rec.fn(target, legacy_arity), is_async, co)
         if is_async and co:
             async def m(self_, *a):
                 return await h(*a)
@@ -106,7 +111,9 @@ def judge(ctx, w, rec, want_t, want_args, has_method, sid=None, env=None):
     w['expected_target'] = want_t
     w['expected_args'] = want_args
     ctx.count('routings_judged')
-    if want_t is None or (want_t in (5, 6) and not has_method):
+    hm = has_method if isinstance(has_method, dict) else \
+        {5: has_method, 6: has_method}
+    if want_t is None or (want_t in (5, 6) and not hm[want_t]):
         want = []
     else:
         want = [(want_t, want_args)]
@@ -123,9 +130,19 @@ def judge(ctx, w, rec, want_t, want_args, has_method, sid=None, env=None):
     return True
 
 
+def split_hm(has_method):
+    if isinstance(has_method, tuple):
+        return {5: has_method[0], 6: has_method[1]}
+    return {5: has_method, 6: has_method}
+
+
 def server_case(ctx, kind, present, evkind, unrelated, has_method, co, rng,
-                cancel=False):
+                cancel=False, legacy=False):
     import socketio
+    hm = split_hm(has_method)
+    nbase = 2      # (sid, reason) for a disconnect
+    arity = {1: nbase - 1, 3: nbase, 5: nbase - 1, 6: nbase} \
+        if legacy else {}
     ns = rng.choice(['/', '/a', '/chat'])
     # on the server "connect_error" is an ordinary event name
     event = {'ordinary': rng.choice(['ev', 'my_event', 'x1',
@@ -139,7 +156,7 @@ def server_case(ctx, kind, present, evkind, unrelated, has_method, co, rng,
             if cancel:
                 d.sio.on(ev, rec.cancelling(target), namespace=nsp)
             else:
-                d.on(ev, rec.fn(target), nsp, co)
+                d.on(ev, rec.fn(target, arity.get(target)), nsp, co)
         if 1 in present:
             reg(event, 1, ns)
         if 2 in present:
@@ -152,12 +169,12 @@ def server_case(ctx, kind, present, evkind, unrelated, has_method, co, rng,
             socketio.Namespace
         if 5 in present:
             d.sio.register_namespace(mk_class(base_cls, rec, 5, event,
-                                              has_method, d.is_async, co,
-                                              ns))
+                                              hm[5], d.is_async, co,
+                                              ns, arity.get(5)))
         if 6 in present:
             d.sio.register_namespace(mk_class(base_cls, rec, 6, event,
-                                              has_method, d.is_async, co,
-                                              '*'))
+                                              hm[6], d.is_async, co,
+                                              '*', arity.get(6)))
         if unrelated:
             d.on('unrelated_event', lambda *a: None, ns, co)
         t = d.open()
@@ -191,11 +208,16 @@ def server_case(ctx, kind, present, evkind, unrelated, has_method, co, rng,
                           % errs[0]['exc'], w)
             return
         want_t, want_args = expected(present, reserved, base, event, ns)
-        if judge(ctx, w, rec, want_t, want_args, has_method, sid, env):
+        if legacy and want_args is not None:
+            want_args = want_args[:-1]
+            w['legacy_disconnect_signature'] = True
+        if judge(ctx, w, rec, want_t, want_args, hm, sid, env):
             if cancel:
                 ctx.count('cancelled_handler_routings')
+            if legacy:
+                ctx.count('legacy_disconnect_routings')
             ctx.case(('server', kind, tuple(sorted(present)), evkind,
-                      unrelated, has_method, co, cancel),
+                      unrelated, has_method, co, cancel, legacy),
                      w if want_t in (3, 4, 6) and rng.random() < 0.02
                      else None)
     finally:
@@ -213,8 +235,12 @@ class RefusingScript(E.ServerScript):
 
 
 def client_case(ctx, kind, present, evkind, unrelated, has_method, co, rng,
-                cancel=False):
+                cancel=False, legacy=False):
     import socketio
+    hm = split_hm(has_method)
+    nbase = 1      # (reason,) for a disconnect
+    arity = {1: nbase - 1, 3: nbase, 5: nbase - 1, 6: nbase} \
+        if legacy else {}
     ns = rng.choice(['/', '/a', '/chat'])
     event = {'ordinary': rng.choice(['ev', 'my_event', 'x1']),
              'connect': 'connect', 'disconnect': 'disconnect',
@@ -230,7 +256,7 @@ def client_case(ctx, kind, present, evkind, unrelated, has_method, co, rng,
             if cancel:
                 h.c.on(ev, rec.cancelling(target), namespace=nsp)
             else:
-                h.on(ev, rec.fn(target), nsp, co)
+                h.on(ev, rec.fn(target, arity.get(target)), nsp, co)
         if 1 in present:
             reg(event, 1, ns)
         if 2 in present:
@@ -243,11 +269,12 @@ def client_case(ctx, kind, present, evkind, unrelated, has_method, co, rng,
             socketio.ClientNamespace
         if 5 in present:
             h.c.register_namespace(mk_class(base_cls, rec, 5, event,
-                                            has_method, h.is_async, co, ns))
+                                            hm[5], h.is_async, co, ns,
+                                            arity.get(5)))
         if 6 in present:
             h.c.register_namespace(mk_class(base_cls, rec, 6, event,
-                                            has_method, h.is_async, co,
-                                            '*'))
+                                            hm[6], h.is_async, co,
+                                            '*', arity.get(6)))
         if unrelated:
             h.on('unrelated_event', lambda *a: None, ns, co)
         args = gen.gen_args(rng, True, 2, maxn=3)
@@ -293,11 +320,16 @@ def client_case(ctx, kind, present, evkind, unrelated, has_method, co, rng,
                           'handler: %r' % internal, w)
             return
         want_t, want_args = expected(present, reserved, base, event, ns)
-        if judge(ctx, w, rec, want_t, want_args, has_method):
+        if legacy and want_args is not None:
+            want_args = want_args[:-1]
+            w['legacy_disconnect_signature'] = True
+        if judge(ctx, w, rec, want_t, want_args, hm):
             if cancel:
                 ctx.count('cancelled_handler_routings')
+            if legacy:
+                ctx.count('legacy_disconnect_routings')
             ctx.case(('client', kind, tuple(sorted(present)), evkind,
-                      unrelated, has_method, co, cancel),
+                      unrelated, has_method, co, cancel, legacy),
                      w if want_t in (3, 4, 6) and rng.random() < 0.02
                      else None)
     finally:
@@ -308,8 +340,14 @@ def grid():
     for bits in range(64):
         present = frozenset(i + 1 for i in range(6) if bits >> i & 1)
         for unrelated in (False, True):
-            hm_opts = (True, False) if (5 in present or 6 in present) \
-                else (True,)
+            if 5 in present and 6 in present:
+                # the two classes have / lack on_<event> independently
+                hm_opts = ((True, True), (True, False), (False, True),
+                           (False, False))
+            elif 5 in present or 6 in present:
+                hm_opts = (True, False)
+            else:
+                hm_opts = (True,)
             for hm in hm_opts:
                 yield present, unrelated, hm
 
@@ -329,6 +367,7 @@ def run(ctx):
         'target (nothing runs)']
     ctx.require('routings_judged', 1000)
     ctx.require('cancelled_handler_routings', 20)
+    ctx.require('legacy_disconnect_routings', 50)
     n = 0
     combos = []
     for side, kinds in (('server', ('sync', 'async')),
@@ -355,10 +394,23 @@ def run(ctx):
         done += 1
         if ctx.too_many_violations():
             return
+        # handlers written before the `reason` argument existed (the
+        # library retries a disconnect notification without it)
+        if evkind == 'disconnect' and (present & {1, 3, 5, 6}):
+            rng = ctx.case_rng(2 * 10 ** 6 + i)
+            if side == 'server':
+                server_case(ctx, kind, present, evkind, unrelated, hm, co,
+                            rng, legacy=True)
+            else:
+                client_case(ctx, kind, present, evkind, unrelated, hm, co,
+                            rng, legacy=True)
+            if ctx.too_many_violations():
+                return
         # asyncio: the winning coroutine function handler ends in
         # CancelledError - still exactly one target runs (no fall-through to
         # a class-based namespace)
-        if kind == 'async' and co and evkind == 'ordinary' and hm and \
+        if kind == 'async' and co and evkind == 'ordinary' and \
+                hm in (True, (True, True)) and \
                 (present & {1, 2, 3, 4}) and (present & {5, 6}):
             rng = ctx.case_rng(10 ** 6 + i)
             if side == 'server':
